@@ -916,6 +916,7 @@ Proof.
   - apply all_bytes_Forall. vm_compute. reflexivity.
   - apply all_bytes_Forall. vm_compute. reflexivity.
   - vm_compute. reflexivity.
+Qed.
 
 (* ------------------------------------------------------------------ the whole-program theorems for valid programs *)
 From PV Require Spec.LuaGrammar Proofs.ParserComplete2 Proofs.ValidDomain1 Proofs.ValidDomainLex Proofs.ValidDomainC10.
